@@ -100,7 +100,11 @@ impl KeyMap {
 impl TreeGuard {
     #[verifier::external_body] pub fn lookup(&self, k: &Vec<SqlValue>) -> (r: Result<Vec<usize>, Opq>) { unimplemented!() }
     #[verifier::external_body] pub fn insert(&mut self, k: Vec<SqlValue>, p: usize) -> (r: Result<(), Opq>) { unimplemented!() }
-    #[verifier::external_body] pub fn delete(&mut self, k: &Vec<SqlValue>) -> (r: Result<bool, Opq>) { unimplemented!() }
+    /// BTreeIndex::delete(key) removes EVERY row position stored under the key: a maintenance step for ONE row may call it only when no other row holds the key
+    pub uninterp spec fn sole_position_under(&self, k: Key) -> bool;
+    #[verifier::external_body] pub fn delete(&mut self, k: &Vec<SqlValue>) -> (r: Result<bool, Opq>) requires old(self).sole_position_under(k@) { unimplemented!() }
+    // BTreeIndex::delete_specific(key, row): removes that row position only
+    #[verifier::external_body] pub fn delete_specific(&mut self, k: &Vec<SqlValue>, p: usize) -> (r: Result<bool, Opq>) { unimplemented!() }
 }
 #[verifier::external_body] fn acquire_btree_lock(t: &SharedTree) -> (r: Result<TreeGuard, Opq>) { unimplemented!() }
 #[verifier::external_body] pub struct StorageError { e: u8 }
@@ -400,8 +404,8 @@ OBLIGATIONS = {
     'check_step': ['post:refused_exactly_when_the_index_holds_the_key'],
     'rebuild_step': ['post:a_rebuild_produces_the_mirror_of_the_rows_whatever_was_there_before', 'proof:loop_invariant_and_termination', 'safety:index_in_bounds'],
     'insert_step': ['post:position_appended_to_the_rows_key_nothing_else_changes'],
-    'update_step': ['post:position_leaves_the_old_key_and_enters_the_new_key_nothing_else_changes'],
-    'delete_step': ['post:position_leaves_the_rows_key_nothing_else_changes'],
+    'update_step': ['post:position_leaves_the_old_key_and_enters_the_new_key_nothing_else_changes', 'safety:disk_backed_arm_removes_only_this_rows_position'],
+    'delete_step': ['post:position_leaves_the_rows_key_nothing_else_changes', 'safety:disk_backed_arm_removes_only_this_rows_position'],
     'lemma_push_contains': ['post:membership_after_push'], 'lemma_push_nodup': ['post:no_duplicates_after_push_of_a_new_element'],
     'lemma_without': ['post:filter_removes_exactly_the_position_and_keeps_no_duplicates'],
     'lemma_uinsert': ['post:append_keeps_the_mirror'], 'lemma_uupdate': ['post:position_moves_from_the_old_key_to_the_new_key_keeps_the_mirror'],
@@ -412,7 +416,7 @@ TRUSTED = [
     'R6: the per-index step (the `match index_data { .. }` expression, with its free variables index_data, metadata, the key vectors and row_index as parameters) and the key-building closures (`|col| { .. }`) are lifted out of the three maintenance functions; what surrounds them is NOT under contract: the loop over the registry (`for (index_name, metadata) in &self.indexes`, the table-name filter, `self.index_data.get_mut(index_name)`), `.iter().map(closure).collect()` over metadata.columns (assumed: one component per index column, in definition order), and the `old_key_values != new_key_values` guard of the update step',
     'external_body KeyMap: BTreeMap<Vec<SqlValue>, Vec<usize>> through push_at (entry().or_insert_with(Vec::new).push()), contains_key / retain_ne / is_empty_at (the list returned by get_mut: retain(|&idx| idx != p), is_empty()), remove - R11 rewrite of the get_mut block',
     'SqlValue, Str, Opq, StorageError, TableSchema opaque (TableSchema::get_column_index: uninterpreted function col_index of the name); norm / trunc = normalize_for_comparison / apply_prefix_truncation uninterpreted (external_body stubs); Option::expect rewritten to expect_col, which REQUIRES Some (a missing index column would panic: precondition col_ok, established by CREATE INDEX validation); Row / IndexColumn reduced to the fields read',
-    'the disk-backed arm (SharedTree, TreeGuard, acquire_btree_lock) is opaque and NOT under contract; observed there: update calls BTreeIndex::delete(old_key), which is handed no row position',
+    'the disk-backed arm (SharedTree, TreeGuard, acquire_btree_lock) is opaque: its EFFECT is not under contract, only which B+ tree operation a step may call - TreeGuard::delete (BTreeIndex::delete: removes EVERY position under the key) carries the precondition sole_position_under, which no step can establish, so a step that calls it fails (the defect repaired by the disk-backed fix of DESIGN 9c); delete_specific / insert / lookup are unconstrained',
     'C15 mirror (umirror) is over the key SEQUENCE keys[j] = index key of the row at position j; the order of positions inside one key list is not part of it (a rebuild lists them ascending; DML appends); insert_step_keeps_mirror / update_step_keeps_mirror are verified wrapper functions written here (not repository code) that call the extracted steps through their contracts',
     'check_step: the `match index_data` of IndexManager::check_unique_constraints_for_insert (index_manager.rs) with its early returns, lifted with the fall-through value Ok(()); the error construction (column-name iterator chain + format!) is replaced by the opaque unique_violation, `acquire_btree_lock(btree)?` by lock_or_err (the From conversion of the lock error); the disk-backed arm (TreeGuard::lookup) is NOT under contract',
     'rebuild_step: the in-memory arm of the `match index_data` in IndexManager::rebuild_indexes; its key closure is elided to build_key (R6b; the closure itself is verified as key_rebuild; `metadata.columns.iter().map(closure).collect()` ASSUMED to apply it to every index column in order); the disk-backed arm (sort_by + BTreeIndex::bulk_load + lock) is replaced by the opaque rebuild_disk_backed; KeyMap::clear = BTreeMap::clear',
